@@ -508,6 +508,15 @@ func (c *bufioConn) UnderlyingConn() net.Conn {
 	return c.Conn
 }
 
+// CloseWrite forwards a write-shutdown to the wrapped connection so the relay
+// can pass the upstream's end of stream on to the client.
+func (c *bufioConn) CloseWrite() error {
+	if wc, ok := c.Conn.(WriteCloser); ok {
+		return wc.CloseWrite()
+	}
+	return nil
+}
+
 func (c *bufioConn) TakeRelaySegments() [][]byte {
 	prefix := c.TakeRelayPrefix()
 	if len(prefix) == 0 {
